@@ -537,7 +537,7 @@ PRED = {  # predicate -> set of Ordering variants for which it is true (std defi
 
 def ordering_variant(e):
     d = path_def(e)
-    if d and (d.startswith("core::cmp::Ordering::") or d.startswith("std::cmp::Ordering::")):
+    if d and (d.startswith("core::cmp::Ordering::") or d.startswith("std::cmp::Ordering::")) and last(d) in ("Less", "Equal", "Greater"):
         return last(d)
     return None
 
@@ -567,6 +567,11 @@ def rule_T6(ctx):
                             helper_paths.add(d)
                 if n.get("k") == "MethodCall" and n.get("m") in PRED and "Ordering" in n.get("recv_ty", ""):
                     preds.append(n["m"])
+            # the predicate handed on as a function item (`helper(this, Ordering::Greater, Ordering::is_lt)`)
+            if n.get("k") == "Path" and n.get("res") in ("def", "self"):
+                pd = n.get("def") or ""
+                if last(pd) in PRED and "Ordering" in pd and "cmp" in pd:
+                    preds.append(last(pd))
         key = "cmp:" + name
         r.examine(key, True, {"fn": name, "false_ord": ords, "predicate": preds})
         found += 1
@@ -582,8 +587,21 @@ def rule_T6(ctx):
     # comparable pairs in the helper: only (X, X) arms for X in comparable_pairs; everything else returns false_ord
     comparable = set(sp["comparable_pairs"])
     n_arms = 0
-    for hp in helper_paths:
+    # the type-pair dispatch may sit behind an intermediate helper: close over runtime-crate callees (3 hops)
+    frontier = set(helper_paths)
+    for _hop in range(3):
+        nxt = set()
+        for hp in frontier:
+            for d, _n in hirq.calls_in(F.fns[hp]["hir"]):
+                if d in F.fns and F.fns[d]["crate"] == "garnish_lang_runtime" and d not in helper_paths:
+                    nxt.add(d)
+        helper_paths |= nxt
+        frontier = nxt
+    for hp in sorted(helper_paths):
         h = F.fns[hp]
+        # the dispatch is the helper that is told the caller's false ordering
+        if not any("cmp::Ordering" in (b.get("ty") or "") for prm in h.get("params", []) for b in walk(prm) if b.get("k") == "Binding"):
+            continue
         for m in hirq.matches_in(h["hir"], lambda t: t.replace(" ", "") == "(%s,%s)" % (GDT, GDT)):
             outer = m is hirq.matches_in(h["hir"], lambda t: t.replace(" ", "") == "(%s,%s)" % (GDT, GDT))[0]
             for alts, guard, arm in arm_table(m):
